@@ -135,14 +135,16 @@ class JobControl:
         return result
 
     def stop_current(self) -> bool:
-        if self._active_agent is not None and self._active_agent.is_running():
-            if self._acquire_lock():
-                try:
+        result = False
+        if self._acquire_lock():
+            try:
+                if (self._active_agent is not None
+                        and self._active_agent.is_running()):
                     self._active_agent.request_stop()
-                finally:
-                    self._release_lock()
-                return True
-        return False
+                    result = True
+            finally:
+                self._release_lock()
+        return result
 
     def has_jobs(self) -> bool:
         return (len(self._queue) > 0 or len(self._background) > 0 or
